@@ -44,3 +44,190 @@ LEMMAS = {
                         "text": "the chain of neighbour constraints implies the statement's separation for every pair of a layer, "
                                 "except non-neighbouring stubs with 2*nodeSpacing + width between < lineSpacing (known finding D12)"},
 }
+
+
+# ======================================================================================================================
+# removeOverlap under contract
+# ======================================================================================================================
+from pyvc.values import Num, Bool, Ref, SList, NONE, NULL, RefS, IntS, Str  # noqa: E402
+from contracts import vpsc as V  # noqa: E402
+from contracts.vpsc import rd, _forall  # noqa: E402
+
+_VAR_FIELDS = ["Variable.desiredPosition", "Variable.weight", "Variable.scale", "Variable.offset", "Variable.node"]
+
+CONTRACTS["removeOverlap.nodeToVariable"] = {
+    "props": ["C01", "C02", "C03"], "heap": True, "map_safe": True,
+    "params": {"node": "ref:Node"},
+    "requires": ["node is not None"],
+    "modifies": _VAR_FIELDS, "allocates": ["Variable"], "returns": "ref:Variable",
+    "ensures": [
+        ("fresh", "fresh(result) and isa(result, 'Variable')"),
+        # a unit-weight variable at the item's target (C02: "unit-weight variables at targets")
+        ("at_target", "result.desiredPosition == node.targetPos"),
+        ("unit_weight", "result.weight == 1"), ("unit_scale", "result.scale == 1"), ("offset0", "result.offset == 0"),
+        ("linked", "result.node is node"),
+        ("frame", "forall(lambda o: implies(old(alloc(o)), o.desiredPosition == old(o.desiredPosition) and o.weight == old(o.weight) "
+                  "and o.scale == old(o.scale) and o.offset == old(o.offset) and o.node is old(o.node)), 'ref:Variable')"),
+    ],
+    "setup": lambda E, P, env: [(_assume_set(E, P, env["node"], "targetPos"), (P, env))[1]],
+}
+
+
+def _assume_set(E, P, node, field):
+    flag = E.heap_array(P, "Node.%s$set" % field, z3.BoolSort())
+    P.assume(z3.Select(flag, node.t))
+
+
+# ---- spec functions ----------------------------------------------------------------------------------------------------
+def target_of(E, P, ctx, n):
+    """the statement's target of an item: the final position of its own stub in the layer below, else its data position"""
+    par = rd(E, P, n, "Node", "parent")
+    return [(P, Num(z3.If(par.t != NULL, rd(E, P, par, "Node", "currentPos").t, rd(E, P, n, "Node", "idealPos").t), False))]
+
+
+def gap_between(E, P, ctx, a, b, ls, ns):
+    """required centre distance of two neighbouring items: half the sum of the widths + line spacing if BOTH are stubs
+    (have a child), label spacing otherwise"""
+    both = z3.And(rd(E, P, a, "Node", "child").t != NULL, rd(E, P, b, "Node", "child").t != NULL)
+    return [(P, Num((rd(E, P, a, "Node", "width").t + rd(E, P, b, "Node", "width").t) / 2
+                    + z3.If(both, E.num(ls).real(), E.num(ns).real()), False))]
+
+
+def distinct_nodes(E, P, ctx, lst):
+    i, j = z3.Const("i!dn", IntS), z3.Const("j!dn", IntS)
+    el = E.l_elems(P, lst)
+    return [(P, Bool(z3.ForAll([i, j], z3.Implies(z3.And(0 <= i, i < j, j < E.l_len(P, lst)), z3.Select(el, i) != z3.Select(el, j)),
+                               patterns=[z3.MultiPattern(z3.Select(el, i), z3.Select(el, j))])))]
+
+
+def new_constraints_listed(E, P, ctx, lst):
+    """every Constraint allocated since the function was entered sits in lst at the index of its append"""
+    if P.old is None:
+        raise V.SpecError("new_constraints_listed outside a function body")
+    c = Ref(z3.Const("c!ncl", RefS), "Constraint")
+    trig = z3.Select(E.heap_array(P, "Constraint.$lastpos", IntS), c.t)
+    isnew = z3.And(c.t != NULL, z3.Select(E.alloc_arr(P), c.t), z3.Not(z3.Select(E.alloc_arr(P.old), c.t)), E.type_is(P, c.t, "Constraint"))
+    return [(P, Bool(_forall([c.t], z3.Implies(isnew, V.listed(E, P, ctx, lst, c)[0][1].t), trig)))]
+
+
+SPECFUNS.update({"target_of": target_of, "gap_between": gap_between, "distinct_nodes": distinct_nodes,
+                 "new_constraints_listed": new_constraints_listed})
+
+_CFIELDS = ["Constraint.left", "Constraint.right", "Constraint.gap", "Constraint.equality", "Constraint.active",
+            "Constraint.unsatisfiable"]
+_NODES_OK = ["len(nodes) > 0", "forall(lambda j: implies(0 <= j < len(nodes), nodes[j] is not None and nodes[j].width >= 0))",
+             "distinct_nodes(nodes)"]
+
+
+def _chain_inv(upto):
+    # indexed by the constraint's own position i (triggers match constraints[i]; an offset index j - 1 would not)
+    return ("forall(lambda i: implies(0 <= i < %s - 1, constraints[i] is not None and constraints[i].left is variables[i] "
+            "and constraints[i].right is variables[i + 1] and not constraints[i].equality and not constraints[i].active "
+            "and not constraints[i].unsatisfiable and lastpos(constraints[i]) == i "
+            "and constraints[i].gap == gap_between(variables[i].node, variables[i + 1].node, options['lineSpacing'], options['nodeSpacing'])))" % upto)
+
+
+def _ghost_vidx(E, P, ctx, args):
+    # args of Solver.__init__: (self, vs, cs)
+    E.ghost_index(P, args[1], "Variable.$vidx", "variables")
+
+
+def _options(minpos, maxpos):
+    return {"$dict": {"nodeSpacing": "real", "minPos": minpos, "maxPos": maxpos}}
+
+
+CONTRACTS["removeOverlap.removeOverlap"] = {
+    "props": ["C01", "C02", "C03", "C08"], "heap": True,
+    "params": {"nodes": "slist:ref:Node"},
+    "cases": [{"params": {"options": _options(mn, mx)}} for mn in ("none", "real") for mx in ("none", "real")],
+    "requires": _NODES_OK + ["options['nodeSpacing'] >= 0", "inv_blk()", "all_wf()"],
+    "slist_locals": {"constraints": "slist:ref:Constraint"},
+    "ghost": {"before_call:vpsc.Solver.__init__": _ghost_vidx},
+    "modifies": ["Node.targetPos", "Node.targetPos$set", "Node.currentPos", "list.elems.ref~Node"] + _VAR_FIELDS + _CFIELDS
+    + ["list.len.ref~Constraint", "list.elems.ref~Constraint", "Constraint.$lastpos", "Constraint.$lastlist",
+       "list.len.ref~Variable", "list.elems.ref~Variable", "Solver.vs", "Solver.cs", "Solver.inactive", "Solver.bs",
+       "Variable.cIn", "Variable.cOut", "list.len.ref~Constraint@adj", "list.elems.ref~Constraint@adj", "Variable.$vidx"]
+    + V.RESTRUCT + ["Blocks.vs", "Constraint.lm", "Constraint.lm$set"],
+    "loops": {
+        0: {"modifies": ["Node.targetPos", "Node.targetPos$set"], "locals": {"node": "ref:Node"},
+            "inv": [("targets_set", "forall(lambda j: implies(0 <= j < _k0, nodes[j].targetPos is not None and nodes[j].targetPos == target_of(nodes[j])))")]},
+        1: {"modifies": _CFIELDS + ["list.len.ref~Constraint", "list.elems.ref~Constraint", "Constraint.$lastpos", "Constraint.$lastlist"],
+            "allocates": ["Constraint"],
+            "locals": {"v1": "ref:Variable", "v2": "ref:Variable", "gap": "real"},
+            "inv": [("list_ok", "constraints is not None and len(constraints) == _k1 - 1 and fresh(constraints)"),
+                    ("chain", _chain_inv("_k1")),
+                    ("inv_blk", "inv_blk()"),
+                    ("only_these_are_new", "new_constraints_listed(constraints)"),
+                    ("old_untouched", "forall(lambda c: implies(old(alloc(c)), c.active == old(c.active) and c.left is old(c.left) and c.right is old(c.right) "
+                                      "and c.gap == old(c.gap) and c.equality == old(c.equality) and c.unsatisfiable == old(c.unsatisfiable)), 'ref:Constraint')")]},
+    },
+    "ensures": [("returns_the_list", "result is nodes")],
+}
+
+
+def _case(mn, mx):
+    """postconditions of one bounds configuration, stated over the solver's own lists:
+    solver.vs = [leftWall]? + (one variable per item, in target order) + [rightWall]?, solver.cs = chain (+ wall constraints)"""
+    off = 1 if mn == "real" else 0
+    offr = 1 if mx == "real" else 0
+    ens = [
+        # -- what the layer looks like after the call (C01 "in the order of their targets")
+        ("sorted_by_target", "forall(lambda j, k: implies(0 <= j < k < len(nodes), target_of(nodes[j]) <= target_of(nodes[k])))"),
+        # -- the problem handed to the solver (C02: unit-weight variables at the targets, chain of gap constraints)
+        ("one_variable_per_item", "len(solver.vs) == len(nodes) + %d and forall(lambda j: implies(0 <= j < len(nodes), "
+                                  "solver.vs[j + %d].node is nodes[j] and solver.vs[j + %d].desiredPosition == target_of(nodes[j]) "
+                                  "and solver.vs[j + %d].weight == 1 and solver.vs[j + %d].scale == 1))" % (off + offr, off, off, off, off)),
+        ("chain_constraints", "len(solver.cs) == len(nodes) - 1 + %d and forall(lambda i: implies(0 <= i < len(nodes) - 1, "
+                              "solver.cs[i].left is solver.vs[i + %d] and solver.cs[i].right is solver.vs[i + %d] and "
+                              "solver.cs[i].gap == gap_between(nodes[i], nodes[i + 1], 2, options['nodeSpacing'])))"
+         % (off + offr, off, off + 1)),
+    ]
+    if mn == "real":
+        ens.append(("left_wall", "solver.vs[0].desiredPosition == options['minPos'] and solver.vs[0].weight == 1e10 and solver.vs[0].scale == 1 "
+                                 "and solver.vs[0].node is None and solver.cs[len(nodes) - 1].left is solver.vs[0] "
+                                 "and solver.cs[len(nodes) - 1].right is solver.vs[1] and solver.cs[len(nodes) - 1].gap == nodes[0].width / 2"))
+    if mx == "real":
+        last = "len(solver.vs) - 1"
+        ci = "len(nodes) - 1 + %d" % off
+        ens.append(("right_wall", "solver.vs[%s].desiredPosition == options['maxPos'] and solver.vs[%s].weight == 1e10 and solver.vs[%s].scale == 1 "
+                                  "and solver.vs[%s].node is None and solver.cs[%s].right is solver.vs[%s] "
+                                  "and solver.cs[%s].left is solver.vs[%s - 1] and solver.cs[%s].gap == nodes[len(nodes) - 1].width / 2"
+                    % (last, last, last, last, ci, last, ci, last, ci)))
+    ens += [
+        ("solved", "feasible(solver)"),
+        ("rounded_positions", "forall(lambda j: implies(0 <= j < len(nodes), nodes[j].currentPos == round(spos(solver.vs[j + %d]))))" % off),
+        # -- C01 for neighbours: separation less at most 1 unit of rounding, unless the solver flagged the constraint
+        #    (an acyclic chain is never flagged: bounded only, drivers c01/c05)
+        ("C01_neighbours_separated", "forall(lambda i: implies(0 <= i < len(nodes) - 1, solver.cs[i].unsatisfiable or "
+                                     "nodes[i + 1].currentPos - nodes[i].currentPos >= gap_between(nodes[i], nodes[i + 1], 2, options['nodeSpacing']) - 1 - 1e-10))"),
+        ("C01_neighbours_ordered", "forall(lambda i: implies(0 <= i < len(nodes) - 1, solver.cs[i].unsatisfiable or nodes[i].currentPos <= nodes[i + 1].currentPos))"),
+    ]
+    # stepping stones: facts about the lists that do not mention currentPos; proved when the final loop is reached,
+    # trivially preserved by it (it writes Node.currentPos only)
+    stones = [
+        ("S1_item_variables", "len(solver.vs) == len(nodes) + %d and forall(lambda j: implies(0 <= j < len(nodes), solver.vs[j + %d].node is nodes[j] "
+                              "and solver.vs[j + %d].scale == 1 and solver.vs[j + %d].desiredPosition == nodes[j].targetPos and solver.vs[j + %d].weight == 1))"
+         % (off + offr, off, off, off, off)),
+        ("S1b_item_variables_by_index", "forall(lambda i: implies(%d <= i < len(nodes) + %d, solver.vs[i].node is nodes[i - %d]))" % (off, off, off)),
+        ("S2_walls", " and ".join((["solver.vs[0].node is None"] if off else []) + (["solver.vs[len(solver.vs) - 1].node is None"] if offr else []) + ["True"])),
+        ("S3_filtered_in_vs", "forall(lambda k: implies(0 <= k < len(variables), variables[k] is not None and variables[k].node is not None and in_vs(solver.vs, variables[k])))"),
+        ("S4_filtered_distinct", "forall(lambda k, m: implies(0 <= k < m < len(variables), variables[k] is not variables[m]))"),
+        ("S5_filtered_are_items", "forall(lambda k: implies(0 <= k < len(variables), %d <= vidx(variables[k]) < len(nodes) + %d "
+                                  "and variables[k].node is nodes[vidx(variables[k]) - %d] and variables[k].scale == 1))" % (off, off, off)),
+        ("S8_filtered_nodes_distinct", "forall(lambda k, m: implies(0 <= k < m < len(variables), variables[k].node is not variables[m].node))"),
+        ("S6_targets", "forall(lambda j: implies(0 <= j < len(nodes), nodes[j].targetPos == target_of(nodes[j])))"),
+        ("S7_solver", "solver is not None and solver.vs is not None and solver.cs is not None and vars_in_blocks(solver.vs) and feasible(solver)"),
+    ]
+    return ens, stones
+
+
+CONTRACTS["removeOverlap.removeOverlap"]["cases"] = [
+    {"params": {"options": _options(mn, mx)}, "ensures": _case(mn, mx)[0], "loops": {2: {"inv": _case(mn, mx)[1]}}}
+    for mn in ("none", "real") for mx in ("none", "real")]
+CONTRACTS["removeOverlap.removeOverlap"]["requires"] += [
+    # items of one layer never stand in for each other: no item's stub (parent) is an item of the same layer
+    "forall(lambda j, k: implies(0 <= j < len(nodes) and 0 <= k < len(nodes), nodes[j].parent is not nodes[k]))"]
+CONTRACTS["removeOverlap.removeOverlap"]["loops"][2] = {
+    "modifies": ["Node.currentPos"], "locals": {"v": "ref:Variable"},
+    "inv": [("prefix_rounded", "forall(lambda k: implies(0 <= k < _k2, variables[k].node.currentPos == round(spos(variables[k]))))")],
+}
